@@ -1313,6 +1313,11 @@ class AgProtocol(utils.EventEmitter):
                     # final result code.
                     logger.exception('Handler %s failed', handler_name)
                     self.send_error()
+                except Exception:
+                    # The handler failed half-way (it may already have answered):
+                    # keep reading, so that the following commands are not left
+                    # behind in the buffer.
+                    logger.exception('Handler %s failed', handler_name)
             else:
                 logger.warning('Handler %s not found', handler_name)
                 self.send_response('ERROR')
